@@ -1,8 +1,215 @@
-(* C14 - displayed dates and durations agree with the stored value.  (work in progress) *)
-From Coq Require Import ZArith NArith List Bool.
-From NP Require Import Gen.GenC14 Model.PyBase Model.DateFormat Model.Duration Proofs.C14Gen.
+(* C14 - Displayed dates and durations agree with the stored value.
+   Property theorems only; each is closed by [exact] of a lemma from Proofs/.
+   Models: Model/DateFormat.v (DATETIME_FIELD_MAP, strftime subset, proleptic Gregorian calendar, the format
+   scanner, the validator; [spec_directive] = the table of docs/api/datetime.rst) and Model/Duration.v
+   (exact integer milliseconds).  The models mirror the tree with fixes/C14-*.patch applied; the two open
+   findings (`y`, `ww`) are modelled as the code has them. *)
+From Coq Require Import ZArith NArith List Bool String.
+From NP Require Import Gen.GenC14 Model.PyBase Model.DateFormat Model.Duration
+  Proofs.C14Gen Proofs.DateFormatP Proofs.DurationP.
 Import ListNotations.
 
+(* ---------------------------------------------------------------- directives *)
+
+(* Every directive except the two open findings renders exactly its documented value (range and padding of
+   the table) for every valid datetime: all 24 hours, 60 minutes, 60 seconds, 12 months, 31 days, every day of
+   every year (day of year, weekday, week of month, n-th weekday), every year, all 10^6 microseconds. *)
+Theorem directive_meets_doc : forall d t, valid_dt t -> d <> D_y -> d <> D_ww ->
+  render_directive d t = spec_directive d t.
+Proof. exact directive_meets_doc_lemma. Qed.
+Print Assumptions directive_meets_doc.
+
+(* ... and with the complement of the two known-finding signatures as hypotheses, for every directive *)
+Theorem directive_meets_doc_partial : forall d t, valid_dt t ->
+  ~ (d = D_y /\ (100 <= year t)%Z) -> ~ (d = D_ww /\ (doc_week_of_year t < 10)%Z) ->
+  render_directive d t = spec_directive d t.
+Proof. exact directive_meets_doc_partial_lemma. Qed.
+Print Assumptions directive_meets_doc_partial.
+
+(* open finding y-prints-century: `y` ("year without century") prints the whole year *)
+Theorem directive_meets_doc_refuted_y : exists t, valid_dt t /\ render_directive D_y t <> spec_directive D_y t.
+Proof. exact y_refuted_lemma. Qed.
+Print Assumptions directive_meets_doc_refuted_y.
+Theorem y_renders_whole_year : forall t, render_directive D_y t = istr (year t).
+Proof. exact y_renders_year. Qed.
+Print Assumptions y_renders_whole_year.
+
+(* open finding ww-zero-padded: `ww` is the documented week number, but always two digits *)
+Theorem directive_meets_doc_refuted_ww : exists t, valid_dt t /\ render_directive D_ww t <> spec_directive D_ww t.
+Proof. exact ww_refuted_lemma. Qed.
+Print Assumptions directive_meets_doc_refuted_ww.
+Theorem ww_is_documented_week_zero_padded : forall t,
+  (1 <= month t <= 12)%Z -> (1 <= day t <= days_in_month (year t) (month t))%Z ->
+  render_directive D_ww t = zfill 2 (spec_directive D_ww t).
+Proof. exact ww_renders_padded. Qed.
+Print Assumptions ww_is_documented_week_zero_padded.
+
+(* the documented numeric value of every directive lies in the documented range (1..24, 0..11, 1..366, ...) *)
+Theorem doc_field_in_range : forall d t lo hi, valid_dt t -> doc_range d = Some (lo, hi) ->
+  exists w v, doc_field d t = Num w v /\ (lo <= v <= hi)%Z.
+Proof. exact doc_field_in_range_lemma. Qed.
+Print Assumptions doc_field_in_range.
+
+(* finite field domains, as swept: the bound is in the statement *)
+Theorem hour_directives_all_24 : forall d t, In d [D_a; D_HH; D_H; D_hh; D_h; D_k; D_kk; D_K; D_KK] ->
+  (0 <= hour t < 24)%Z -> render_directive d t = spec_directive d t.
+Proof. exact hour_dirs_ok. Qed.
+Print Assumptions hour_directives_all_24.
+
+(* fractions of a second are the leading digits of the six microsecond digits *)
+Theorem microsecond_prefix : forall (n j : nat) t, (n + j = 6)%nat -> (1 <= n)%nat -> (0 <= micro t < 1000000)%Z ->
+  micro_prefix n t = zfill n (istr (micro t / 10 ^ Z.of_nat j)).
+Proof. exact micro_dir. Qed.
+Print Assumptions microsecond_prefix.
+
+(* the pinned tree's k / kk (str(hour).replace("0", "24")) at 10:00 and 20:00 *)
+Theorem pinned_k_refuted :
+  let t := mkdt 2023 1 1 10 0 0 0 in
+  valid_dt t /\ pinned_k t = L"124" /\ pinned_kk t = L"124" /\ spec_directive D_k t = L"10" /\ spec_directive D_kk t = L"10" /\
+  pinned_k (mkdt 2023 1 1 20 0 0 0) = L"224".
+Proof. exact pinned_k_refuted_lemma. Qed.
+Print Assumptions pinned_k_refuted.
+
+(* ---------------------------------------------------------------- calendar *)
+
+(* the day count is strictly monotone in the lexicographic order of valid dates (all years, unbounded) *)
+Theorem days_from_civil_strict_mono : forall y1 m1 d1 y2 m2 d2,
+  (1 <= m1 <= 12)%Z -> (1 <= d1 <= days_in_month y1 m1)%Z ->
+  (1 <= m2 <= 12)%Z -> (1 <= d2 <= days_in_month y2 m2)%Z ->
+  date_lt (y1, m1, d1) (y2, m2, d2) -> (days_from_civil y1 m1 d1 < days_from_civil y2 m2 d2)%Z.
+Proof. exact days_from_civil_strict_mono. Qed.
+Print Assumptions days_from_civil_strict_mono.
+
+Theorem days_from_civil_injective : forall y1 m1 d1 y2 m2 d2,
+  (1 <= m1 <= 12)%Z -> (1 <= d1 <= days_in_month y1 m1)%Z ->
+  (1 <= m2 <= 12)%Z -> (1 <= d2 <= days_in_month y2 m2)%Z ->
+  days_from_civil y1 m1 d1 = days_from_civil y2 m2 d2 -> (y1, m1, d1) = (y2, m2, d2).
+Proof. exact days_from_civil_injective. Qed.
+Print Assumptions days_from_civil_injective.
+
+(* the next civil day is the next day number, and the next weekday *)
+Theorem days_from_civil_next_day : forall y m d, (1 <= m <= 12)%Z -> (1 <= d <= days_in_month y m)%Z ->
+  let '(y', m', d') := next_day y m d in days_from_civil y' m' d' = (days_from_civil y m d + 1)%Z.
+Proof. exact days_from_civil_next_day. Qed.
+Print Assumptions days_from_civil_next_day.
+
+Theorem weekday_next_day : forall y m d, (1 <= m <= 12)%Z -> (1 <= d <= days_in_month y m)%Z ->
+  let '(y', m', d') := next_day y m d in weekday y' m' d' = ((weekday y m d + 1) mod 7)%Z.
+Proof. exact weekday_next_day. Qed.
+Print Assumptions weekday_next_day.
+
+(* the day-of-year table is the running sum of the month lengths *)
+Theorem day_of_year_is_sum_of_months : forall t, (1 <= month t <= 12)%Z -> py_day_of_year t = doc_day_of_year t.
+Proof. exact doy_ok. Qed.
+Print Assumptions day_of_year_is_sum_of_months.
+
+(* ---------------------------------------------------------------- formats *)
+
+(* a format is the concatenation of its parts, and no part is dropped as unsupported *)
+Theorem format_concat : forall ps t, separable ps ->
+  decode_date_format (unparse ps) t = flat_map (render_part t) ps /\
+  unsupported (scan (unparse ps) false false []) = [].
+Proof. exact format_concat_lemma. Qed.
+Print Assumptions format_concat.
+
+(* literal text without ASCII letters and quotes passes through unchanged *)
+Theorem literal_passthrough : forall s t, Forall (fun c => is_alpha c = false /\ c <> c_quote) s ->
+  decode_date_format s t = s.
+Proof. exact literal_passthrough_lemma. Qed.
+Print Assumptions literal_passthrough.
+
+(* quoted text passes through unchanged; a quote inside is written doubled *)
+Theorem quoted_passthrough : forall s t, s <> [] -> hd 0%N s <> c_quote ->
+  decode_date_format (c_quote :: escape_quotes s ++ [c_quote]) t = s.
+Proof. exact quoted_passthrough_lemma. Qed.
+Print Assumptions quoted_passthrough.
+
+(* the pinned scanner: '' directly after a directive is emitted before it *)
+Theorem pinned_doubled_quote_refuted :
+  decode_date_format_pinned (L"d''d") (mkdt 2023 5 7 10 4 5 0) = L"'07" /\
+  flat_map (render_part (mkdt 2023 5 7 10 4 5 0)) [PDir D_d; PQuote; PDir D_d] = L"7'7" /\
+  unparse [PDir D_d; PQuote; PDir D_d] = L"d''d".
+Proof. exact pinned_doubled_quote_refuted. Qed.
+Print Assumptions pinned_doubled_quote_refuted.
+
+(* the pinned validator rejects quoted literal text that the scanner renders *)
+Theorem pinned_validator_refuted :
+  validate_format_pinned (L"h 'o''clock' a") = false /\ validate_format (L"h 'o''clock' a") = true /\
+  decode_date_format (L"h 'o''clock' a") (mkdt 2023 5 7 10 4 5 0) = L"10 o'clock am".
+Proof. exact validator_pinned_refuted_lemma. Qed.
+Print Assumptions pinned_validator_refuted.
+
+(* ---------------------------------------------------------------- durations *)
+
+(* A displayed duration, read back unit by unit (the digit runs of the string, weighted by the units shown),
+   is the duration truncated to the smallest unit shown: all ms >= 0, all 21 unit pairs, any style. *)
+Theorem duration_readback : forall ms style largest smallest, valid_pair largest smallest = true ->
+  weighted_sum (units_shown largest smallest) (readback (duration_format ms style largest smallest))
+  = (ms - ms mod unit_ms smallest)%N.
+Proof. exact duration_readback_lemma. Qed.
+Print Assumptions duration_readback.
+
+(* the components are a proper mixed-radix decomposition: one per unit shown, each below its predecessor's unit *)
+Theorem duration_parts_decompose : forall ms largest smallest, valid_pair largest smallest = true ->
+  parts_total (duration_parts ms largest smallest) = (ms - ms mod unit_ms smallest)%N /\
+  List.map fst (duration_parts ms largest smallest) = units_shown largest smallest /\
+  parts_proper (duration_parts ms largest smallest).
+Proof. exact duration_parts_lemma. Qed.
+Print Assumptions duration_parts_decompose.
+
+(* whatever the style and units, the numbers in the string are the components *)
+Theorem duration_string_shows_parts : forall ms style largest smallest,
+  readback (duration_format ms style largest smallest) = List.map snd (duration_parts ms largest smallest).
+Proof. exact readback_format. Qed.
+Print Assumptions duration_string_shows_parts.
+
+(* automatic units: the largest unit not exceeding the duration, down to the coarsest unit dividing it *)
+Theorem auto_units_cover : forall ms L S, (0 < ms)%N -> is_unit S = true ->
+  let '(s, l) := auto_units ms L S in
+  is_unit l = true /\ is_unit s = true /\ (l <= s)%N /\
+  (unit_ms l <= ms)%N /\ (forall u, is_unit u = true -> (unit_ms u <= ms)%N -> (unit_ms u <= unit_ms l)%N) /\
+  (ms mod unit_ms s = 0)%N /\
+  ((ms mod MS_WEEK)%N <> 0%N -> forall u, is_unit u = true -> (ms mod unit_ms u = 0)%N -> (unit_ms u <= unit_ms s)%N).
+Proof. exact auto_units_cover_lemma. Qed.
+Print Assumptions auto_units_cover.
+
+(* ... so that with automatic units nothing is truncated *)
+Theorem auto_units_readback_exact : forall ms style L S, is_unit S = true ->
+  let '(s, l) := auto_units ms L S in
+  weighted_sum (units_shown l s) (readback (duration_display ms style L S true)) = ms.
+Proof. exact auto_readback_exact_lemma. Qed.
+Print Assumptions auto_units_readback_exact.
+
+(* ---------------------------------------------------------------- translator ties *)
 Theorem gen_c14_field_map : GenC14.field_map = DateFormat.modelled_field_map.
 Proof. exact gen_c14_field_map. Qed.
 Print Assumptions gen_c14_field_map.
+Theorem gen_c14_helpers : GenC14.helpers = DateFormat.modelled_helpers.
+Proof. exact gen_c14_helpers. Qed.
+Print Assumptions gen_c14_helpers.
+Theorem gen_c14_strftime_names :
+  GenC14.cpython_day_names = DateFormat.day_names /\ GenC14.cpython_day_abbrs = DateFormat.day_abbrs /\
+  GenC14.cpython_month_names = DateFormat.month_names /\ GenC14.cpython_month_abbrs = DateFormat.month_abbrs /\
+  GenC14.cpython_ampm = DateFormat.ampm_names.
+Proof. exact gen_c14_strftime_names. Qed.
+Print Assumptions gen_c14_strftime_names.
+
+(* ---------------------------------------------------------------- non-vacuity *)
+Example c14_date_example :
+  let t := mkdt 2024 2 29 0 4 5 123456 in
+  valid_dt t /\
+  decode_date_format (L"EEEE d MMMM yyyy 'at' k:mm a, 'day' D, F. EEE ''yy S") t
+    = L"Thursday 29 February 2024 at 24:04 am, day 60, 5. Thu '24 1" /\
+  separable [PDir D_EEEE; PLit (L" "); PDir D_d; PQuoted (L"o'clock"); PLit (L":"); PQuote; PDir D_kk].
+Proof.
+  split; [apply valid_dtb_spec; reflexivity|]. split; [vm_compute; reflexivity|].
+  vm_compute. repeat (split || constructor); try discriminate; try reflexivity.
+Qed.
+
+Example c14_duration_example :
+  duration_format 788645006 S_LONG U_WEEK U_MS = L"1 week 2 days 3 hours 4 minutes 5 seconds 6 milliseconds" /\
+  duration_format 788645006 S_COMPACT U_DAY U_MS = L"9:3:04:05.006" /\
+  duration_format 788645006 S_SHORT U_HOUR U_MINUTE = L"219h 4m" /\
+  readback (L"9:3:04:05.006") = [9; 3; 4; 5; 6]%N /\
+  auto_units 788645006 U_WEEK U_WEEK = (U_MS, U_WEEK) /\ auto_units 7200000 1 1 = (U_HOUR, U_HOUR).
+Proof. vm_compute. repeat split. Qed.
